@@ -354,9 +354,10 @@ def applyEvent (s : PSys) : Event → Except String PSys
     let n := s.nodes i
     match s.snaps.find? (fun m => m.term = t ∧ m.idx = idx ∧ m.sterm = sterm) with
     | some m =>
-      if n.up ∧ m.term = n.term ∧ n.role ≠ 2 ∧ n.commit ≤ m.idx ∧ m.pre.length = m.idx then
+      if n.up ∧ m.term = n.term ∧ n.role ≠ 2 ∧ n.commit ≤ m.idx ∧ m.pre.length = m.idx ∧
+          (n.log.length ≤ m.idx ∨ termAt n.log m.idx ≠ m.sterm) then
         ok { s with nodes := upd s.nodes i { n with role := 0, log := m.pre, commit := m.idx, outbox := n.outbox ++ [.ack n.term i m.idx m.pre] } }
-      else .error "installSnap: wrong term / leader / snapshot behind the commit index"
+      else .error "installSnap: wrong term / leader / snapshot behind the commit index / snapshot matches the local log (it must only advance the commit index, not discard the entries behind it)"
     | none => .error "installSnap: no such released snapshot"
   | .commitSnap i t idx sterm =>
     let n := s.nodes i
